@@ -335,3 +335,148 @@ pub fn judge(which: &str, cfg: &Cfg, log: &[Rec]) -> Report {
     };
     rep
 }
+
+// ---------------------------------------------------------------------------------------
+// E-STRESS: multi-thread runtime, real clock. Only what is sound there is judged: listener
+// events are emitted under the breaker's own mutex, so their order in the log is the order of
+// the admission decisions. (i) no CallPermitted between a transition to Open and the next
+// transition; (ii) at most `permitted` CallPermitted between a transition to HalfOpen and the
+// next transition; (iii) at every prefix, inner entries <= CallPermitted events.
+// ---------------------------------------------------------------------------------------
+
+pub fn stress(which: &str, sseed: u64, calls: u64) -> Report {
+    use tower::Service;
+    let mut rng = Prng::new(sseed);
+    let workers = *rng.pick(&[4usize, 8, 16]);
+    let permitted = rng.range(1, 3) as usize;
+    let time_based = rng.chance(0.4);
+    let wait_us = *rng.pick(&[500u64, 2000, 5000]);
+    let mut rep = Report::default();
+    let rt = tokio::runtime::Builder::new_multi_thread().worker_threads(workers).enable_time().build().unwrap();
+    let w = crate::world::World::new();
+    let (w1, w2, w3) = (w.clone(), w.clone(), w.clone());
+    let st = |s: CircuitState| match s {
+        CircuitState::Closed => 0u64,
+        CircuitState::Open => 1,
+        CircuitState::HalfOpen => 2,
+    };
+    let mut b = CircuitBreakerLayer::builder()
+        .failure_rate_threshold(0.5)
+        .sliding_window_size(4)
+        .minimum_number_of_calls(3)
+        .wait_duration_in_open(Duration::from_micros(wait_us))
+        .permitted_calls_in_half_open(permitted);
+    if time_based {
+        b = b.sliding_window_type(SlidingWindowType::TimeBased).sliding_window_duration(Duration::from_millis(20));
+    }
+    let layer = b
+        .on_state_transition(move |from, to| {
+            w1.log(Ev::Listener { name: "transition".into(), a: st(from), b: st(to) });
+        })
+        .on_call_permitted(move |s| {
+            w2.log(Ev::Listener { name: "permitted".into(), a: st(s), b: 0 });
+        })
+        .on_call_rejected(move || {
+            w3.log(Ev::Listener { name: "rejected".into(), a: 0, b: 0 });
+        })
+        .build();
+    let svc = layer.layer(w.probe(1));
+    let tasks = 32u64;
+    let per = calls / tasks;
+    let finished = rt.block_on(async {
+        tokio::time::timeout(Duration::from_secs(120), async {
+            let mut hs = vec![];
+            for t in 0..tasks {
+                let svc = svc.clone();
+                let mut r = Prng::new(sseed ^ (t + 1) * 0x7F4A);
+                hs.push(tokio::spawn(async move {
+                    for i in 0..per {
+                        let mut s = svc.clone();
+                        let lat = if r.chance(0.4) { Lat::Us(0) } else { Lat::Us(r.range(1, 300)) };
+                        let out = if r.chance(0.55) { Out::Err(1) } else { Out::Ok };
+                        let req = Req::new(t * 10_000_000 + i + 1, 0, vec![Step { lat, out }]);
+                        if std::future::poll_fn(|cx| s.poll_ready(cx)).await.is_err() {
+                            continue;
+                        }
+                        let fut = s.call(req);
+                        if r.chance(0.1) {
+                            let h = tokio::spawn(fut);
+                            tokio::time::sleep(Duration::from_micros(r.range(0, 200))).await;
+                            h.abort();
+                            let _ = h.await;
+                        } else {
+                            let _ = fut.await;
+                        }
+                        if r.chance(0.05) {
+                            tokio::time::sleep(Duration::from_micros(r.range(100, 3000))).await;
+                        }
+                    }
+                }));
+            }
+            for h in hs {
+                let _ = h.await;
+            }
+        })
+        .await
+        .is_ok()
+    });
+    rt.shutdown_background();
+    if !finished {
+        rep.inconclusive = Some("stress run did not finish within 120s of wall clock".into());
+        return rep;
+    }
+    let log = w.take_log();
+    let wt = if time_based { "time" } else { "count" };
+    let mut cur = 0u64;
+    let mut ho_permitted = 0usize;
+    let mut permitted_total = 0u64;
+    let mut enters = 0u64;
+    let mut opens = 0u64;
+    let mut half_opens = 0u64;
+    let mut max_ho = 0usize;
+    for r in &log {
+        match &r.ev {
+            Ev::Listener { name, b: to, .. } if name == "transition" => {
+                cur = *to;
+                if cur == 1 {
+                    opens += 1;
+                }
+                if cur == 2 {
+                    half_opens += 1;
+                    ho_permitted = 0;
+                }
+            }
+            Ev::Listener { name, .. } if name == "permitted" => {
+                permitted_total += 1;
+                if cur == 1 && which == "C03" {
+                    rep.violate(format!("C03:{wt}:stress:call-permitted-while-open"), format!("a call was permitted (seq {}) after a transition to Open and before the next transition", r.seq));
+                }
+                if cur == 2 {
+                    ho_permitted += 1;
+                    max_ho = max_ho.max(ho_permitted);
+                    if which == "C09" && ho_permitted > permitted {
+                        rep.violate(format!("C09:{wt}:stress:over-admission"), format!("{} calls were permitted in one half-open episode with permitted_calls_in_half_open={permitted} (seq {})", ho_permitted, r.seq));
+                    }
+                }
+            }
+            Ev::InnerEnter { .. } => {
+                enters += 1;
+                if enters > permitted_total && which == "C03" {
+                    rep.violate(format!("C03:{wt}:stress:inner-call-without-permission"), format!("{enters} inner calls but only {permitted_total} calls had been permitted (seq {})", r.seq));
+                }
+            }
+            _ => {}
+        }
+        if rep.violations.len() > 10 {
+            break;
+        }
+    }
+    rep.count("stress_inner_calls", enters);
+    rep.count("stress_open_transitions", opens);
+    rep.count("stress_half_open_episodes", half_opens);
+    rep.max("stress_max_permitted_in_one_half_open_episode", max_ho as u64);
+    rep.nontrivial = if which == "C03" { opens >= 2 } else { half_opens >= 2 && max_ho >= permitted };
+    rep.sig = crate::prng::mix(sseed, opens * 1000 + half_opens);
+    rep.case = json!({"engine":"stress","workers":workers,"window":wt,"permitted":permitted,"wait_us":wait_us,"calls":per*tasks,"inner_calls":enters,"open_transitions":opens,"half_open_episodes":half_opens,"max_permitted_in_one_half_open_episode":max_ho});
+    rep
+}
